@@ -67,6 +67,10 @@ func (rp *replayer) patchedTime() (orig, patched string, err error) {
 
 func (rp *replayer) binary(fn *ssa.Function) (string, error) {
 	pkgPath := fn.Pkg.Pkg.Path()
+	race := strings.HasSuffix(fn.Name(), "_race")
+	if race {
+		pkgPath += " -race"
+	}
 	if b, ok := rp.bins[pkgPath]; ok {
 		if b == "" {
 			return "", fmt.Errorf("earlier build failure")
@@ -74,7 +78,7 @@ func (rp *replayer) binary(fn *ssa.Function) (string, error) {
 		return b, nil
 	}
 	rp.bins[pkgPath] = ""
-	rel := strings.TrimPrefix(strings.TrimPrefix(pkgPath, "github.com/ory/fosite"), "/")
+	rel := strings.TrimPrefix(strings.TrimPrefix(fn.Pkg.Pkg.Path(), "github.com/ory/fosite"), "/")
 	pkgDir := filepath.Join(rp.r.repo, rel)
 	// harness names of this package
 	var names []string
@@ -92,6 +96,7 @@ func (rp *replayer) binary(fn *ssa.Function) (string, error) {
 	}
 	tb.WriteString("\tdefault:\n\t\tt.Fatal(\"unknown harness\")\n\t}\n}\n")
 	testSrc := filepath.Join(rp.dir, "replay_"+fmt.Sprintf("%x", sha256.Sum256([]byte(pkgPath)))[:12]+"_test.go")
+	_ = race
 	if err := os.WriteFile(testSrc, []byte(tb.String()), 0o644); err != nil {
 		return "", err
 	}
@@ -115,7 +120,12 @@ func (rp *replayer) binary(fn *ssa.Function) (string, error) {
 		return "", err
 	}
 	bin := filepath.Join(rp.dir, "bin_"+filepath.Base(testSrc))
-	cmd := exec.Command("go", "test", "-c", "-vet=off", "-overlay", ovFile, "-o", bin, "./"+rel)
+	args := []string{"test", "-c", "-vet=off", "-overlay", ovFile, "-o", bin}
+	if race {
+		args = append(args, "-race")
+	}
+	args = append(args, "./"+rel)
+	cmd := exec.Command("go", args...)
 	cmd.Dir = rp.r.repo
 	cmd.Env = goEnv()
 	out, err := cmd.CombinedOutput()
@@ -144,7 +154,15 @@ func (rp *replayer) run(fn *ssa.Function, model map[string]any, label string) (*
 	if err := os.WriteFile(rf, data, 0o644); err != nil {
 		return nil, err
 	}
-	return runReplayBinary(bin, fn.Name(), rf, rp.dir)
+	out, err := runReplayBinary(bin, fn.Name(), rf, rp.dir)
+	if err == nil && label != "" && out.failedLabel == "" || (err == nil && label != "" && strings.HasPrefix(out.failedLabel, "!")) {
+		// concurrency harnesses (_race): a data race, a concurrent-map fatal error or a deadlock watchdog
+		// reported by the native run confirms the lock-discipline finding it was derived from
+		if strings.HasSuffix(fn.Name(), "_race") && (strings.Contains(out.raw, "WARNING: DATA RACE") || strings.Contains(out.raw, "fatal error: concurrent map") || strings.Contains(out.raw, "ZZ-DEADLOCK")) {
+			out.failedLabel = label
+		}
+	}
+	return out, err
 }
 
 var replayTier = "quick"
@@ -152,7 +170,7 @@ var replayTier = "quick"
 func runReplayBinary(bin, harness, replayFile, dir string) (*replayOut, error) {
 	cmd := exec.Command(bin, "-test.run", "^TestZZReplay$", "-test.v", "-test.timeout", "120s")
 	cmd.Dir = dir
-	cmd.Env = append(os.Environ(), "ZZ_VERIF_REPLAY="+replayFile, "ZZ_HARNESS="+harness, "ZZ_TIER="+replayTier)
+	cmd.Env = append(os.Environ(), "ZZ_VERIF_REPLAY="+replayFile, "ZZ_HARNESS="+harness, "ZZ_TIER="+replayTier, "GORACE=halt_on_error=1")
 	var buf bytes.Buffer
 	cmd.Stdout = &buf
 	cmd.Stderr = &buf
